@@ -146,7 +146,7 @@ def set_at(v, path, new):
     return v
 
 
-HOSTILE_NUMBERS = [10 ** 400, -10 ** 400, 2 ** 1024, {"$": "float", "s": "inf"}, {"$": "float", "s": "-inf"}, {"$": "float", "s": "nan"},
+HOSTILE_NUMBERS = [10 ** 400, -10 ** 400, 2 ** 1024, 1e18, -1e18, 10 ** 18, 1e30, {"$": "float", "s": "inf"}, {"$": "float", "s": "-inf"}, {"$": "float", "s": "nan"},
                    1e308, -1e308, 10 ** 14, 86400000000000, -86399999913601, 2 ** 63, {"$": "dec", "s": "1E+400"},
                    {"$": "dec", "s": "NaN"}, {"$": "dec", "s": "Infinity"}, {"$": "dec", "s": "sNaN"}, 1e14, 253402300800, -62135596801]
 HOSTILE_STRINGS = ["sNaN", "-sNaN", "NaN", "1/0", "1e999", "nan", "inf", "-inf", "Infinity", "1" * 400, "1e400", "é", "\ud800", "１２", "0x10", "1_000", " 1",
@@ -190,8 +190,8 @@ HOSTILE_DATA_BY_TAG = {
             {"$": "bytes", "h": "ff"}, {"$": "cx", "r": "1.0", "i": "0.0"}],
     "float": [{"$": "dec", "s": "sNaN"}, {"$": "dec", "s": "1E+400"}, {"$": "frac", "s": "1/3"}, {"$": "bytes", "h": "31"}, 10 ** 400,
               {"$": "pow10", "e": 5000, "neg": False}, {"$": "cx", "r": "1.0", "i": "0.0"}],
-    "date": [0, -1, 10 ** 14, 1.5, {"$": "float", "s": "nan"}, _tup(2020, 1, 1), True],
-    "datetime": [0, -62135596801, 253402300800, 10 ** 14, {"$": "float", "s": "nan"}, {"$": "float", "s": "inf"}, 1e308, True],
+    "date": [0, -1, 10 ** 14, 1e18, -1e18, 10 ** 18, 1.5, {"$": "float", "s": "nan"}, _tup(2020, 1, 1), True],
+    "datetime": [0, -62135596801, 253402300800, 10 ** 14, 1e18, -1e18, 10 ** 18, {"$": "float", "s": "nan"}, {"$": "float", "s": "inf"}, 1e308, True],
     "timedelta": [{"$": "float", "s": "nan"}, {"$": "float", "s": "inf"}, 1e308, 10 ** 14, 86400000000000, -86399999913601,
                   {"$": "dec", "s": "NaN"}, {"$": "dec", "s": "1E+400"}, {"$": "dec", "s": "sNaN"}, True, {"$": "frac", "s": "1/3"}],
     "uuid": [0, 2 ** 128, -1, {"$": "bytes", "h": "00" * 16}, {"$": "bytes", "h": "00"}, _tup(1, 2, 3, 4, 5, 6)],
